@@ -62,13 +62,21 @@ theorem core_cons (x : Cps) (o : O) : core (x :: o) = core o ++ stripWs x := by
 theorem core_cons_ws {x : Cps} (h : allWs x = true) (o : O) : core (x :: o) = core o := by
   simp [core_cons, stripWs_of_allWs h]
 
+theorem isWs_of_isCssWs {c : Nat} (h : isCssWs c = true) : isWs c = true := by
+  simp [isCssWs] at h
+  rcases h with (((rfl | rfl) | rfl) | rfl) | rfl <;> decide
+
+theorem allWs_of_allCssWs {x : Cps} (h : allCssWs x = true) : allWs x = true := by
+  simp only [allCssWs, allWs, List.all_eq_true] at *
+  exact fun c hc => isWs_of_isCssWs (h c hc)
+
 theorem core_removeLastIfS (o : O) : core (removeLastIfS o) = core o := by
   cases o with
   | nil => rfl
   | cons x r =>
     simp only [removeLastIfS]
     split
-    · rename_i h; rw [core_cons_ws h]
+    · rename_i h; rw [core_cons_ws (allWs_of_allCssWs h)]
     · rfl
 
 theorem core_insertBeforeLast {s : Cps} (h : allWs s = true) (o : O) : core (insertBeforeLast o s) = core o := by
